@@ -124,6 +124,13 @@ let handle (toks : string list) : string =
     Buffer.contents buf
   | ["hm_key"; n; k] ->
     show_res str_of_bits (key_bits (nat_of_int (int_of_string n)) (z_of_hex k))
+  | ["addr_parse"; h] ->
+    (match address_of_str (bytes_of_hex h) with
+     | Err e -> "err " ^ err_name e
+     | Ok a -> Printf.sprintf "ok %s %s %d %d pyhash=%s" (hex_of_z a.a_wc) (hex_of_bytes a.a_hash)
+                 (if a.a_bounceable then 1 else 0) (if a.a_test_only then 1 else 0) (hex_of_z (address_pyhash a)))
+  | ["addr_str"; wc; h; f; u; b; t] ->
+    show_res hex_of_bytes (to_str (z_of_hex wc) (bytes_of_hex h) (f = "1") (u = "1") (b = "1") (t = "1"))
   | "senc" :: rest ->
     let (ns, ops) = parse_dag rest in
     let trees = tree_of_dag ns in
